@@ -9,7 +9,7 @@ From V.Gen Require Import C02Shapes.
 Local Open Scope N_scope.
 
 Definition method_ok (m : string) : bool :=
-  match lookup_shape m shapes with Some s => atomic_shape s || known_nonatomic m | None => false end.
+  match lookup_shape m shapes with Some s => atomic_shape s | None => false end.
 
 (** [OpStart o :: body ++ [OpEnd ok]] with no call marks inside the body *)
 Fixpoint body_then_end (t : trace) : bool :=
